@@ -154,14 +154,14 @@ var schema = map[string][]fdef{
 	"AttributeUnit": fs(kI32, "attributeKeyStrindex", "unitStrindex"),
 	"Link":          fs(kSkip, "traceId", "spanId"),
 	// responses
-	"RespRoot:logs":       {{"partialSuccess", kMsg, "Partial:logs"}},
-	"RespRoot:traces":     {{"partialSuccess", kMsg, "Partial:traces"}},
-	"RespRoot:metrics":    {{"partialSuccess", kMsg, "Partial:metrics"}},
-	"RespRoot:profiles":   {{"partialSuccess", kMsg, "Partial:profiles"}},
-	"Partial:logs":        cat(fs(kI64, "rejectedLogRecords"), fs(kStr, "errorMessage")),
-	"Partial:traces":      cat(fs(kI64, "rejectedSpans"), fs(kStr, "errorMessage")),
-	"Partial:metrics":     cat(fs(kI64, "rejectedDataPoints"), fs(kStr, "errorMessage")),
-	"Partial:profiles":    cat(fs(kI64, "rejectedProfiles"), fs(kStr, "errorMessage")),
+	"RespRoot:logs":     {{"partialSuccess", kMsg, "Partial:logs"}},
+	"RespRoot:traces":   {{"partialSuccess", kMsg, "Partial:traces"}},
+	"RespRoot:metrics":  {{"partialSuccess", kMsg, "Partial:metrics"}},
+	"RespRoot:profiles": {{"partialSuccess", kMsg, "Partial:profiles"}},
+	"Partial:logs":      cat(fs(kI64, "rejectedLogRecords"), fs(kStr, "errorMessage")),
+	"Partial:traces":    cat(fs(kI64, "rejectedSpans"), fs(kStr, "errorMessage")),
+	"Partial:metrics":   cat(fs(kI64, "rejectedDataPoints"), fs(kStr, "errorMessage")),
+	"Partial:profiles":  cat(fs(kI64, "rejectedProfiles"), fs(kStr, "errorMessage")),
 }
 
 func rootType(c *codec) string {
@@ -421,29 +421,62 @@ func skeletons(typ string, anyDepth int) []string {
 		}
 		anyDepth--
 	}
-	var common []string
-	var alts []string
+	type part struct {
+		name string
+		text string
+	}
+	var base []part
+	type override struct {
+		name string // "" = additional part (one-of alternative), otherwise replaces the base part of that name
+		text string
+	}
+	var overrides []override
 	for _, f := range schema[typ] {
 		switch f.kind {
 		case kArrMsg:
-			common = append(common, `"`+f.name+`":[`+strings.Join(skeletons(f.child, anyDepth), ",")+`]`)
+			base = append(base, part{f.name, "[" + strings.Join(skeletons(f.child, anyDepth), ",") + "]"})
 		case kMsg:
-			common = append(common, `"`+f.name+`":`+skeletons(f.child, anyDepth)[0])
+			vs := skeletons(f.child, anyDepth)
+			base = append(base, part{f.name, vs[0]})
+			for _, v := range vs[1:] {
+				overrides = append(overrides, override{f.name, v})
+			}
 		case kNav:
 			for _, v := range skeletons(f.child, anyDepth) {
-				alts = append(alts, `"`+f.name+`":`+v)
+				overrides = append(overrides, override{"", `"` + f.name + `":` + v})
 			}
 		}
 	}
-	base := "{" + strings.Join(common, ",") + "}"
-	if len(alts) == 0 {
-		return []string{base}
+	render := func(o *override) string {
+		var items []string
+		for _, p := range base {
+			text := p.text
+			if o != nil && o.name == p.name {
+				text = o.text
+			}
+			items = append(items, `"`+p.name+`":`+text)
+		}
+		if o != nil && o.name == "" {
+			items = append(items, o.text)
+		}
+		return "{" + strings.Join(items, ",") + "}"
 	}
-	out := []string{base}
-	for _, a := range alts {
-		out = append(out, "{"+strings.Join(append(append([]string(nil), common...), a), ",")+"}")
+	out := []string{render(nil)}
+	for i := range overrides {
+		out = append(out, render(&overrides[i]))
 	}
 	return out
+}
+
+// reachableTypes lists the message types reachable from typ in the schema.
+func reachableTypes(typ string, seen map[string]bool) {
+	if typ == "" || seen[typ] {
+		return
+	}
+	seen[typ] = true
+	for _, f := range schema[typ] {
+		reachableTypes(f.child, seen)
+	}
 }
 
 var cDef = newC("json-explicit-defaults-sweep")
@@ -541,12 +574,27 @@ func TestJSONExplicitDefaultsSweep(t *testing.T) {
 		shards = s
 		shard, _ = strconv.Atoi(os.Getenv("VT_SHARD"))
 	}
-	typesSeen := map[string]bool{}
 	for ki, kind := range codecNames {
 		if ki%shards != shard {
 			continue
 		}
 		c := codecs[kind]
+		typesSeen := map[string]bool{}
+		defer func(kind string, c *codec, typesSeen map[string]bool) {
+			// every message type reachable from the kind's root must have been visited by the sweep
+			want := map[string]bool{}
+			reachableTypes(rootType(c), want)
+			var missing []string
+			for typ := range want {
+				if !typesSeen[typ] {
+					missing = append(missing, typ)
+				}
+			}
+			sort.Strings(missing)
+			if len(missing) > 0 {
+				cDef.Inconclusive("schema self-check: message types never reached by the sweep of %s: %v", kind, missing)
+			}
+		}(kind, c, typesSeen)
 		var bases []string
 		for _, sk := range skeletons(rootType(c), 2) {
 			bases = append(bases, sk)
@@ -601,19 +649,6 @@ func TestJSONExplicitDefaultsSweep(t *testing.T) {
 					}
 				}
 			}
-		}
-	}
-	if shards == 1 {
-		// every message type of the schema must have been visited by the sweep
-		var missing []string
-		for typ := range schema {
-			if !typesSeen[typ] {
-				missing = append(missing, typ)
-			}
-		}
-		sort.Strings(missing)
-		if len(missing) > 0 {
-			cDef.Inconclusive("schema self-check: message types never reached by the sweep: %v", missing)
 		}
 	}
 }
